@@ -4,6 +4,10 @@
 // call leaves the patch mesh-part in the base node), refines base node and all patch nodes jointly 0..2 times and dumps,
 // per level: the base mesh with its patch mesh-parts (patch -> base maps), every patch mesh with its split mesh parts,
 // its communication ranks and its halos (patch-local target sets).  TLC judges the dump against spec/Partition.tla.
+// "compact":1 (decompositions into MANY small patches, spec/PartitionGenMany.tla): level 0 is dumped in full, the refined
+// levels only with what the cover / closure / neighbour / halo clauses read (entity counts, the cell -> sub-entity index
+// sets of the base mesh, the patch -> base maps, entity counts of the patch meshes, comm ranks, halos), so that TLC can
+// judge a 64..144-patch decomposition after two joint refinements in a few seconds (spec/PartitionManyCheck.tla).
 #include "vmesh.hpp"
 #include <kernel/geometry/parti_2lvl.hpp>
 #include <kernel/geometry/parti_iterative.hpp>
@@ -25,6 +29,38 @@ static void put_graph(FILE* f, const Adjacency::Graph& g)
   std::fputc(']', f);
 }
 
+// compact level: {"n":[..],"idx":{"i<dim><e>": e < dim},"parts":[{"name":..,"t":[..]}..]}
+template<class Mesh_>
+void put_level_compact(FILE* f, const Mesh_& m, const std::vector<std::pair<std::string, const Geometry::MeshPart<Mesh_>*>>& parts)
+{
+  constexpr int dim = Mesh_::shape_dim;
+  std::fputs("{\"n\":[", f);
+  for(int d(0); d <= dim; ++d) std::fprintf(f, d ? ",%llu" : "%llu", (unsigned long long)m.get_num_entities(d));
+  std::fputs("],\"idx\":{", f);
+  if constexpr (dim == 2)
+  {
+    std::fputs("\"i20\":", f); put_index_set(f, m.template get_index_set<2, 0>());
+    std::fputs(",\"i21\":", f); put_index_set(f, m.template get_index_set<2, 1>());
+  }
+  else
+  {
+    std::fputs("\"i30\":", f); put_index_set(f, m.template get_index_set<3, 0>());
+    std::fputs(",\"i31\":", f); put_index_set(f, m.template get_index_set<3, 1>());
+    std::fputs(",\"i32\":", f); put_index_set(f, m.template get_index_set<3, 2>());
+  }
+  std::fputs("},\"parts\":[", f);
+  bool first = true;
+  for(const auto& np : parts)
+  {
+    if(!first) std::fputc(',', f);
+    first = false;
+    std::fputs("{\"name\":", f); put_str(f, np.first);
+    std::fputs(",\"t\":", f); put_tsh<dim>(f, np.second->get_target_set_holder());
+    std::fputc('}', f);
+  }
+  std::fputs("]}", f);
+}
+
 template<class Shape_> vj::Value run_parti(const vj::Value& c)
 {
   typedef MeshT<Shape_> MeshType;
@@ -37,6 +73,7 @@ template<class Shape_> vj::Value run_parti(const vj::Value& c)
   const vj::Value& pa = c["parti"];
   const std::string kind = pa["kind"].as_str();
   const long long maxcells = c.get_int("maxcells", 4000);
+  const bool compact = c.get_int("compact", 0) != 0;
 
   Geometry::MeshAtlas<MeshType> atlas;
   Geometry::PartitionSet pset;
@@ -194,7 +231,8 @@ template<class Shape_> vj::Value run_parti(const vj::Value& c)
       for(const auto& nm : fnames) bp.emplace_back(nm, b.find_mesh_part(nm));
       for(const auto& x : bp) if(x.second == nullptr) { std::fclose(f); return vh::bad("mesh part " + x.first + " missing on level " + std::to_string(l)); }
       std::fputs("{\"base\":", f);
-      exact = put_level(f, *b.get_mesh(), K, bp, false) && exact;
+      if(compact && l > 0) put_level_compact(f, *b.get_mesh(), bp);
+      else exact = put_level(f, *b.get_mesh(), K, bp, false) && exact;
       std::fputs(",\"patches\":[", f);
       for(Index r(0); r < nranks; ++r)
       {
@@ -203,7 +241,13 @@ template<class Shape_> vj::Value run_parti(const vj::Value& c)
         PartList pp;
         for(const auto& nm : fnames) pp.emplace_back(nm, p.find_mesh_part(nm));
         std::fprintf(f, "{\"rank\":%llu,\"mesh\":", (unsigned long long)r);
-        exact = put_level(f, *p.get_mesh(), K, pp, false) && exact;
+        if(compact && l > 0)
+        {
+          std::fputs("{\"n\":[", f);
+          for(int d(0); d <= dim; ++d) std::fprintf(f, d ? ",%llu" : "%llu", (unsigned long long)p.get_mesh()->get_num_entities(d));
+          std::fputs("]}", f);
+        }
+        else exact = put_level(f, *p.get_mesh(), K, pp, false) && exact;
         std::fputs(",\"comm\":[", f);
         for(std::size_t i(0); i < comm[r].size(); ++i) std::fprintf(f, i ? ",%d" : "%d", comm[r][i]);
         std::fputs("],\"halos\":[", f);
